@@ -127,7 +127,7 @@ def gen_case(rng):
     kinds = [rng.choice(["cat", "cat", "mr", "cat_date", "text", "datetime"]) for _ in range(nd)]
     if nd == 2 and rng.random() < 0.1:
         kinds = ["ca"]
-    case = sc.gen_case(rng, kinds=kinds, max_n=4)
+    case = sc.gen_case(rng, kinds=kinds, max_n=4, derived_items=True)
     vars_, survey = sc.load(case)
     if kinds == ["ca"]:
         case["transforms"] = {}
@@ -359,6 +359,19 @@ def evaluate(case, louts, ctx):
                 findings.append({"kind": "spec", "locus": locus,
                                  "detail": "k=%d under t%s | t=%s reindexed strip(t)=%s row_order=%r col_order=%r" % (
                                      k, where, sc._short(v_t), sc._short(exp), ro_t, co_t)})
+        # the two renderings of an order name the same sequence (signed index <-> 'ins_<id>')
+        for nm, order, dkey in (("row", ro_t, "rows_dimension"), ("column", co_t, "columns_dimension")):
+            if not is_slice and nm == "column":
+                continue
+            valid_ins = [i for i in (tr.get(dkey, {}) or {}).get("insertions", []) if i.get("hide") is not True]
+            bog = common.call_impl(lambda: getattr(p_t, "%s_order" % nm)(1))
+            try:
+                exp_b = [("ins_%d" % valid_ins[x + len(valid_ins)]["id"]) if x < 0 else x for x in order]
+            except IndexError:
+                exp_b = None
+            if exp_b is not None:
+                got_b = [int(x) if (isinstance(x, str) and x.lstrip("-").isdigit()) else x for x in bog] if isinstance(bog, list) else bog
+                sc.compare(findings, "spec", "order.%s.bogus-ids-format" % nm, got_b, exp_b, "k=%d signed=%r" % (k, order))
         # position-valued outputs
         for nm, order in (("row", ro_t), ("column", co_t)):
             if not is_slice and nm == "column":
